@@ -146,6 +146,14 @@ var Kinds = []Kind{
 	{"reflect_value_empty", func() interface{} { return reflect.ValueOf("") }},
 	{"reflect_value_false", func() interface{} { return reflect.ValueOf(false) }},
 	{"nullable_nil", func() interface{} { return nullableFix{} }},
+	// maps keyed by arrays (an index that is a slice is not such a key, whatever its length)
+	{"map_arr_key", func() interface{} { return map[[2]int]string{{1, 2}: "a"} }},
+	{"map_iface_arr_key", func() interface{} { return map[[2]interface{}]string{{1, "x"}: "a"} }},
+	{"map_parr_key", func() interface{} { return map[*[2]int]bool{} }},
+	// named types around false / "": values like any other (truthy), in every position
+	{"named_bool_false", func() interface{} { return namedBool(false) }},
+	{"named_str_empty", func() interface{} { return namedStr("") }},
+	{"named_html_empty", func() interface{} { return template.JS("") }},
 	// String() / HTML() promoted from an embedded interface that is nil: printing the value calls them
 	{"embeds_nil_stringer", func() interface{} { return struct{ fmt.Stringer }{} }},
 	{"embeds_nil_htmler", func() interface{} { return struct{ plush.HTMLer }{} }},
@@ -186,6 +194,7 @@ type withID struct{ ID int }
 type withSlug struct{ Slug interface{} }
 
 type namedStr string
+type namedBool bool
 
 // SmallKinds is an 8-kind subset for the deeper tuples.
 var SmallKinds = []string{"nil", "int1", "str_a", "bool_t", "float64", "ints3", "msi", "pstrct"}
